@@ -15,4 +15,5 @@ mod tag;
 mod attrs;
 mod dirs;
 mod misc;
+mod children;
 mod canary;
